@@ -408,6 +408,15 @@ class Executor:
             return contains(b, a, s)
         if isinstance(op, ast.NotIn):
             return z3.Not(contains(b, a, s))
+        if isinstance(a, Val) and isinstance(b, Val) and strip_opt(a.ty)[0] == "set" and strip_opt(b.ty)[0] == "set":
+            # set inclusion (<=, >=) pointwise over the membership arrays; strict inclusion is outside the subset
+            if isinstance(op, (ast.LtE, ast.GtE)):
+                lo, hi = (a, b) if isinstance(op, ast.LtE) else (b, a)
+                k = z3.Const(smt.push_binder("ssk"), V)
+                smt.pop_binder()
+                h = s.heap
+                return z3.ForAll([k], z3.Implies(h.c["sh"][lo.t][k], h.c["sh"][hi.t][k]))
+            raise Unsupported("strict set comparison")
         x, y = as_int(a), as_int(b)
         if isinstance(op, ast.Lt):
             return x < y
